@@ -41,6 +41,9 @@ type c15Doc struct {
 	Tree jnode `json:"tree"`
 	// Abandon > 0: only the first Abandon calls are made, then Reset (a half-written document)
 	Abandon int `json:"abandon,omitempty"`
+	// NonFinite: the document also holds NaN / infinities (no JSON form: its output is not judged),
+	// what matters is the document written after the next Reset
+	NonFinite bool `json:"nonfinite,omitempty"`
 }
 
 var jsonStrings = []string{
@@ -381,6 +384,14 @@ var c15 = &vh.Prop[c15Case]{
 			}
 			if i < n-1 && rapid.IntRange(0, 3).Draw(t, "abandon") == 0 {
 				d.Abandon = rapid.IntRange(1, 12).Draw(t, "ncalls")
+			} else if i < n-1 && rapid.IntRange(0, 3).Draw(t, "nonfinite") == 0 {
+				d.NonFinite = true
+				bad := []uint64{math.Float64bits(math.NaN()), math.Float64bits(math.Inf(1)), math.Float64bits(math.Inf(-1))}[rapid.IntRange(0, 2).Draw(t, "nf")]
+				nf := jnode{K: "f64", F: bad}
+				if rapid.Bool().Draw(t, "nf32") {
+					nf = jnode{K: "f32", F: uint64(math.Float32bits(float32(math.Float64frombits(bad))))}
+				}
+				d.Tree = jnode{K: "arr", Kids: []jnode{nf, d.Tree}}
 			}
 			c.Docs = append(c.Docs, d)
 		}
@@ -403,6 +414,10 @@ var c15 = &vh.Prop[c15Case]{
 			unlimited := -1
 			emit(&shared, &d.Tree, &unlimited)
 			got := append([]byte{}, shared.Done()...)
+			if d.NonFinite {
+				x.Label("non-finite-document")
+				continue
+			}
 			var fresh plenccodec.JSONOutput
 			unlimited = -1
 			emit(&fresh, &d.Tree, &unlimited)
